@@ -324,3 +324,136 @@ Lemma ex_wire_ok :
   run_C26 ex_wire = VL (map VB [line_of s_host host_C26; line_of s_transfer_encoding s_chunked;
                                 line_of s_te s_trailers; [88;45;70;111;111;58;32;49]]).
 Proof. vm_compute. repeat split; reflexivity. Qed.
+
+(* ---- the guard is exact: every input of finding class 1 does violate the property ---- *)
+Definition vals_ok (m : hmap) : Prop := Forall (fun e => snd e <> []) m.
+
+Lemma hadd_vals k v m : vals_ok m -> vals_ok (hadd k v m).
+Proof.
+  unfold vals_ok. induction m as [|[k' vs] r IH]; simpl; intros H.
+  - constructor; [discriminate|constructor].
+  - inversion H as [|? ? H1 H2]; subst. destruct (bytes_eqb k k').
+    + constructor; [|exact H2]. simpl. intros E. apply app_eq_nil in E. destruct E as [_ E]. discriminate.
+    + constructor; [exact H1|apply IH; exact H2].
+Qed.
+Lemma hdel_vals k m : vals_ok m -> vals_ok (hdel k m).
+Proof.
+  unfold vals_ok. intros H. apply Forall_forall. intros e He. apply hdel_In in He.
+  rewrite Forall_forall in H. apply H. apply He.
+Qed.
+Lemma hset_vals k v m : vals_ok m -> vals_ok (hset k v m).
+Proof.
+  intros H. unfold hset, vals_ok. apply Forall_app. split; [apply hdel_vals; exact H|].
+  constructor; [discriminate|constructor].
+Qed.
+Lemma parse_headers_vals pairs : vals_ok (parse_headers pairs).
+Proof.
+  unfold parse_headers.
+  assert (G : forall acc, vals_ok acc ->
+              vals_ok (fold_left (fun m p => let k := canon_key (fst p) in
+                                             match k with [] => m | _ => hadd k (trim_sp (snd p)) m end) pairs acc)).
+  { induction pairs as [|p ps IH]; simpl; intros acc Hacc; [exact Hacc|].
+    apply IH. destruct (canon_key (fst p)); [exact Hacc|apply hadd_vals; exact Hacc]. }
+  apply G. constructor.
+Qed.
+Lemma read_request_vals pairs m ch n : read_request pairs = Some (m, ch, n) -> vals_ok m.
+Proof.
+  unfold read_request.
+  pose proof (hdel_vals s_host _ (parse_headers_vals pairs)) as H0.
+  set (m0 := hdel s_host (parse_headers pairs)) in *.
+  unfold fix_te. destruct (hfind s_transfer_encoding m0) as [tvs|].
+  - destruct (te_loop _ _) as [[|[|k]]|]; try discriminate.
+    + pose proof (hdel_vals s_transfer_encoding _ H0) as H1. revert H1.
+      generalize (hdel s_transfer_encoding m0). intros m1 H1.
+      destruct (fix_length m1 false) as [[m2 n2]|] eqn:E2; [|discriminate].
+      assert (H2 : vals_ok m2).
+      { revert E2. unfold fix_length.
+        destruct (hfind s_content_length m1) as [[|v0 [|v1 vs]]|].
+        1,2,4: (destruct (trim_sp (hfirst s_content_length m1)) as [|c cr];
+                [intros H; inversion H; subst; apply hdel_vals; exact H1|
+                 destruct (parse_dec (c :: cr)); intros H; inversion H; subst; exact H1]).
+        destruct (forallb _ _); [|discriminate].
+        pose proof (hset_vals s_content_length (trim_sp v0) m1 H1) as H1'. revert H1'.
+        generalize (hset s_content_length (trim_sp v0) m1). intros mx H1'.
+        destruct (trim_sp (hfirst s_content_length mx)) as [|c cr];
+          [intros H; inversion H; subst; apply hdel_vals; exact H1'|
+           destruct (parse_dec (c :: cr)); intros H; inversion H; subst; exact H1']. }
+      unfold fix_trailer. destruct (hfirst s_trailer m2) as [|c cr].
+      * intros H; inversion H; subst. exact H2.
+      * destruct (existsb _ _); [discriminate|]. intros H; inversion H; subst. apply hdel_vals. exact H2.
+    + simpl. pose proof (hdel_vals s_content_length _ (hdel_vals s_transfer_encoding _ H0)) as H1. revert H1.
+      generalize (hdel s_content_length (hdel s_transfer_encoding m0)). intros m1 H1.
+      unfold fix_trailer. destruct (hfirst s_trailer m1) as [|c cr].
+      * intros H; inversion H; subst. exact H1.
+      * destruct (existsb _ _); [discriminate|]. intros H; inversion H; subst. apply hdel_vals. exact H1.
+  - destruct (fix_length m0 false) as [[m2 n2]|] eqn:E2; [|discriminate].
+    assert (H2 : vals_ok m2).
+    { revert E2. unfold fix_length.
+      destruct (hfind s_content_length m0) as [[|v0 [|v1 vs]]|].
+      1,2,4: (destruct (trim_sp (hfirst s_content_length m0)) as [|c cr];
+              [intros H; inversion H; subst; apply hdel_vals; exact H0|
+               destruct (parse_dec (c :: cr)); intros H; inversion H; subst; exact H0]).
+      destruct (forallb _ _); [|discriminate].
+      pose proof (hset_vals s_content_length (trim_sp v0) m0 H0) as H1'. revert H1'.
+      generalize (hset s_content_length (trim_sp v0) m0). intros mx H1'.
+      destruct (trim_sp (hfirst s_content_length mx)) as [|c cr];
+        [intros H; inversion H; subst; apply hdel_vals; exact H1'|
+         destruct (parse_dec (c :: cr)); intros H; inversion H; subst; exact H1']. }
+    unfold fix_trailer. destruct (hfirst s_trailer m2) as [|c cr].
+    + intros H; inversion H; subst. exact H2.
+    + destruct (existsb _ _); [discriminate|]. intros H; inversion H; subst. apply hdel_vals. exact H2.
+Qed.
+
+Lemma insert_sorted_In_rev e x l : x = e \/ In x l -> In x (insert_sorted e l).
+Proof.
+  induction l as [|y l IH]; simpl; [intros [H|[]]; left; symmetry; exact H|].
+  destruct (bytes_ltb (fst y) (fst e)); simpl.
+  - intros [H|[H|H]]; [right; apply IH; left; exact H|left; exact H|right; apply IH; right; exact H].
+  - intros [H|[H|H]]; [left; symmetry; exact H|right; left; exact H|right; right; exact H].
+Qed.
+Lemma sort_keys_In_rev x m : In x m -> In x (sort_keys m).
+Proof.
+  induction m as [|e m IH]; simpl; [intros []|].
+  intros [H|H]; apply insert_sorted_In_rev; [left; symmetry; exact H|right; apply IH; exact H].
+Qed.
+Lemma lines_of_In_rev k vs v m : In (k, vs) m -> In v vs -> In (line_of k v) (lines_of m).
+Proof.
+  intros He Hv. unfold lines_of. apply in_flat_map. exists (k, vs). split; [apply sort_keys_In_rev; exact He|].
+  simpl. apply in_map. exact Hv.
+Qed.
+
+Theorem kf_C26_exact : forall i, wf_C26 i = true -> kf_C26 i = 1 -> prop_C26 i (run_C26 i) = false.
+Proof.
+  intros i Hwf Hkf. unfold wf_C26 in Hwf. unfold kf_C26 in Hkf. unfold prop_C26, run_C26.
+  destruct (dec_C26 i) as [[mode pairs]|] eqn:Hd; [|discriminate].
+  apply andb_true_iff in Hwf. destruct Hwf as [Hn _].
+  unfold backend_lines.
+  destruct (read_request pairs) as [[[m ch] n]|] eqn:Hr; [|discriminate].
+  pose proof (read_request_ok pairs m ch n Hn Hr) as [Hnd Hcan].
+  pose proof (read_request_vals pairs m ch n Hr) as Hvals.
+  set (tokens := conn_tokens pairs) in *.
+  destruct (existsb (fun e => nominated tokens (fst e)) (to_backend m)) eqn:Hex; [|discriminate].
+  apply existsb_exists in Hex. destruct Hex as [[k vs] [He Hnom]]. simpl in Hnom.
+  pose proof (to_backend_sub m _ He) as Hin.
+  rewrite Forall_forall in Hcan. pose proof (Hcan _ Hin) as Hk. simpl in Hk.
+  unfold vals_ok in Hvals. rewrite Forall_forall in Hvals. pose proof (Hvals _ Hin) as Hne. simpl in Hne.
+  destruct vs as [|v vs']; [contradiction|].
+  set (m' := hop_remove m).
+  cbn [map]. cbn [as_B all_some]. rewrite all_some_as_B.
+  apply not_true_is_false. intros Hall. rewrite forallb_forall in Hall.
+  assert (Hl : In (line_of k v) (line_of s_host host_C26 :: framing_lines m' ch n ++ lines_of (written m'))).
+  { right. apply in_or_app. right. apply (lines_of_In_rev k (v :: vs') v); [exact He|left; reflexivity]. }
+  specialize (Hall _ Hl). unfold line_ok in Hall.
+  rewrite line_name_of in Hall by (apply canonical_no_colon; exact Hk).
+  rewrite Hnom in Hall. cbn [negb] in Hall. rewrite andb_false_r, orb_false_r in Hall.
+  (* k is not one of BFE's framing names: those are in the write-exclude list *)
+  apply written_In in He. destruct He as [_ Hex]. simpl in Hex.
+  unfold own_framing in Hall.
+  assert (F : forall s, canonical s -> In s write_exclude -> eq_fold k s = false).
+  { intros s Hs Hins. destruct (eq_fold k s) eqn:E; [|reflexivity].
+    apply (canonical_fold_eq k s Hk Hs) in E. subst. contradiction. }
+  rewrite (F s_host) in Hall by (try (split; reflexivity); simpl; tauto).
+  rewrite (F s_content_length) in Hall by (try (split; reflexivity); simpl; tauto).
+  rewrite (F s_transfer_encoding) in Hall by (try (split; reflexivity); simpl; tauto).
+  discriminate.
+Qed.
